@@ -3,6 +3,7 @@
 # Nothing here is derived from the Coq model or from mila's code: it is written from the format
 # description (see coq/Model/LZSpec.v header for the same description in prose).
 import itertools
+import os
 
 WINDOW = 4096
 
@@ -332,6 +333,68 @@ def structured_input(rng, maxlen):
     return "near-periodic", bytes(b)
 
 
+LONG_MATCH = 65808          # 0xFFFF + 0x111: the longest match of the LZ11 long form
+
+
+def long_compressible_inputs(rng, tier):
+    """Runs and short-period inputs whose repeat continues beyond LONG_MATCH bytes, blank regions inside
+    random data; -> list of (name, bytes, few_tokens).  The wrapper-length computation of LZ13 costs about
+    n * 4096 / period steps on these, so the periods are not all tiny."""
+    out = []
+    for n in (65536, LONG_MATCH, LONG_MATCH + 1, LONG_MATCH + 2, LONG_MATCH + 3, LONG_MATCH + 4, 1 << 17, 140000):
+        out.append(("run", bytes([rng.getrandbits(8)]) * n, True))
+    for p, ns in ((3, (LONG_MATCH + 3, LONG_MATCH + 4, LONG_MATCH + 5, 140001)), (7, (LONG_MATCH + 8, 140000)),
+                  (2, (LONG_MATCH + 3,)), (19, (70000, 2 * LONG_MATCH + 40)), (4096, (4096 + LONG_MATCH + 1, 150000))):
+        pat = rand_bytes(rng, p)
+        for n in ns:
+            out.append(("period-%d" % p, periodic(pat, n), p <= 19))
+    out.append(("blank-region", rand_bytes(rng, 500) + bytes(101000) + rand_bytes(rng, 500), False))
+    out.append(("periodic-region", rand_bytes(rng, 300) + periodic(rand_bytes(rng, 19), 70000) + rand_bytes(rng, 300), False))
+    if tier != "quick":
+        for _ in range(20):
+            p = rng.choice([1, 2, 3, 5, 18, 100, 1000, 4095, 4096])
+            n = rng.choice([LONG_MATCH, LONG_MATCH + 1, LONG_MATCH + 2, 2 * LONG_MATCH + 5, 1 << 17, 1 << 18]) + rng.randint(0, p + 3)
+            pre = rng.randint(0, 50)
+            out.append(("period-%d" % p, rand_bytes(rng, pre) + periodic(rand_bytes(rng, p), n) + rand_bytes(rng, rng.randint(0, 50)),
+                        p <= 18 and n <= (1 << 17) + 30))
+    return out
+
+
+def stretch_inputs(data):
+    """Escalation of a correspondence difference that is not (yet) an oracle failure: the same input made
+    long - repeated as a whole, and with its longest run / its tail period continued - up to the lengths at
+    which the LZ10 / LZ11 size and length fields change form.  -> list of bytes."""
+    out = []
+    if not data:
+        return out
+    targets = (4100, 8200, 33000, LONG_MATCH + 3, LONG_MATCH + 300, 101000, 140000, 270000)
+    # longest run
+    best_i, best_l, i = 0, 0, 0
+    while i < len(data):
+        j = i
+        while j < len(data) and data[j] == data[i]:
+            j += 1
+        if j - i > best_l:
+            best_i, best_l = i, j - i
+        i = j
+    for t in targets:
+        if len(data) <= 4096:
+            out.append(periodic(data, t))                                   # the whole input as the period
+        out.append(data[:best_i] + bytes([data[best_i]]) * t + data[best_i + best_l:])   # its longest run made long
+        tail = data[-min(len(data), 64):]
+        from_p = len(tail) - smallest_period_of(tail)
+        out.append(data + periodic(tail[from_p:], t))                        # its tail period continued
+    return out
+
+
+def smallest_period_of(x):
+    n = len(x)
+    for p in range(1, n):
+        if all(x[i] == x[i + p] for i in range(n - p)):
+            return p
+    return max(n, 1)
+
+
 def small_alphabet_exhaustive(letters, maxlen):
     for n in range(0, maxlen + 1):
         for t in itertools.product(letters, repeat=n):
@@ -403,6 +466,25 @@ def compress_inputs(rng, tier, kind, hdr_flag_small):
     for n in (4094, 4095, 4096, 4097, 4098, 4099, 4100, 4115, 4116, 5000):
         add(b"\x00" * n, "long-run")
         add(periodic(bytes(rng.getrandbits(8) for _ in range(7)), n), "long-period-7")
+    # long, highly compressible inputs (a handful of tokens each, so cheap on both sides): repeats that go on for more
+    # than 65808 bytes = the longest match an LZ11 token can describe, 2^16, 2^17, ~140000 (seeded change C09-1:
+    # a look-ahead of 0x10111 wraps the 16-bit length field for a match of exactly 65809 bytes)
+    # (LZ_NO_LONG=1 leaves these out: only used to exercise the escalation path of the runner, see notes/lz.md)
+    for name, data, few_tokens in ([] if os.environ.get("LZ_NO_LONG") else long_compressible_inputs(rng, tier)):
+        # the list model costs about (number of tokens) * (input length) steps: LZ13 with few tokens is compared with
+        # the model (flag 3: compressed bytes only, wrapper length and the model's own decoder left out), the rest is
+        # implementation + oracle only
+        if kind == "lz13c" and few_tokens:
+            cases.append(Case("%s 3 %s" % (kind, hexb(data)), "long-compressible-" + name))
+        else:
+            add(data, "long-compressible-" + name, model=False)
+    # the same entry points through the enum CompressionFormat (kind lz10f / lz13f): a slice of the family
+    fkind = kind[:-1] + "f"
+    for b in small_alphabet_exhaustive((0x61, 0x62), 7 if tier == "quick" else 10):
+        cases.append(Case("%s %s %s" % (fkind, hdr_flag_small(len(b)), hexb(b)), "format-enum-exhaustive-2-letters"))
+    for _ in range(40 if tier == "quick" else 300):
+        name, data = structured_input(rng, rng.choice([40, 300, 1500, 6000]))
+        cases.append(Case("%s %s %s" % (fkind, hdr_flag_small(len(data)), hexb(data)), "format-enum-" + name))
     nmodel, nbig, bigmax = (220, 40, 65536) if tier == "quick" else (1500, 200, 1 << 20)
     for _ in range(nmodel):
         name, data = structured_input(rng, rng.choice([40, 300, 1500, 6000]))
@@ -456,7 +538,8 @@ def ceil_div(a, b):
 
 class LZCheckMixin:
     """agree(): cases flagged 0 are not run through the model; lz13c cases flagged 1 are compared with the
-    three wrapper length bytes masked; a difference in those bytes alone (flag 2) is counted, not a violation."""
+    three wrapper length bytes masked; a difference in those bytes alone (flag 2) is counted, not a violation;
+    flag 3 = as 1 without the model's own round trip (long inputs)."""
     wrapper_diffs = 0
     shrink_budget = 60            # every evaluation runs the extracted list model: keep the failure path short
     kdiff_cases = 3
@@ -471,13 +554,29 @@ class LZCheckMixin:
             return model_out == "SKIP"
         if impl_out == model_out:
             return True
-        if kind == "lz13c" and impl_out.startswith("ok B13") and model_out.startswith("ok B13"):
+        if flag == "3":
+            # the model's own decoder was not run (rt:skipped): compare the compressed bytes; the implementation's
+            # round trip is judged by the oracle
+            impl_out = " ".join(impl_out.split(" ")[:2])
+            model_out = " ".join(model_out.split(" ")[:2])
+            if impl_out == model_out:
+                return True
+        if kind in ("lz13c", "lz13f") and impl_out.startswith("ok B13") and model_out.startswith("ok B13"):
             mask = lambda o: o[:6] + "......" + o[12:]
             if mask(impl_out) == mask(model_out):
                 if flag == "2":
                     type(self).wrapper_diffs += 1
                 return True
         return False
+
+    def escalate_candidates(self, case):
+        """Called by the runner when the implementation differs from the model on `case` but the oracle accepts the
+        implementation's output: the same input stretched (implementation + oracle only, flag 0)."""
+        parts = case.line.split(" ")
+        if parts[0] not in ("lz10c", "lz13c", "lz10f", "lz13f"):
+            return
+        for d in stretch_inputs(parse_hex(parts[2])):
+            yield Case("%s 0 %s" % (parts[0], hexb(d)), case.stream + "+stretched")
 
     def extra_checks(self, ctx):
         return [], {"wrapper_length_byte_differences_not_constrained_by_the_property": type(self).wrapper_diffs}
